@@ -143,10 +143,45 @@ class Ctx:
                 return None
         return vals
 
+    def _home_site(self, f: Func) -> str:
+        """The site a finding in f is filed under.  A *new* private helper (not a function of the reference tree) that
+        could not be inlined - a recursive worker, say - is filed under the one reference function it is reached from,
+        so that extracting it does not rename the findings (and known findings) of that function."""
+        from .known_funcs import KNOWN_FUNCS
+
+        top = f.top
+        if f"{top.module}:{top.qualname}" in KNOWN_FUNCS or not top.name.startswith("_") or (top.name.startswith("__") and top.name.endswith("__")):
+            return f.site
+        cache = self.__dict__.setdefault("_home_cache", {})
+        if top in cache:
+            return cache[top]
+        rev = self.__dict__.get("_callers_rev")
+        if rev is None:
+            rev = {}
+            for g in self.model.all_funcs():
+                for c in self.env.calls_in[g]:
+                    for h, _r in self.env.callees(g, c):
+                        rev.setdefault(h.top, set()).add(g.top)
+            self.__dict__["_callers_rev"] = rev
+        seen, frontier, homes = {top}, [top], set()
+        while frontier:
+            g = frontier.pop()
+            for h in rev.get(g, ()):
+                if h in seen:
+                    continue
+                seen.add(h)
+                if f"{h.module}:{h.qualname}" in KNOWN_FUNCS:
+                    homes.add(h)
+                else:
+                    frontier.append(h)
+        site = next(iter(homes)).site if len(homes) == 1 else f.site
+        cache[top] = site
+        return site
+
     def ob(self, rule: str, props, f_or_site, construct, node=None, ok=True, detail="", path=None,
            note=False) -> Ob:
         if isinstance(f_or_site, Func):
-            site = f_or_site.site
+            site = self._home_site(f_or_site)
             loc = self.model.loc(f_or_site, node if node is not None else f_or_site.node)
         else:
             site = str(f_or_site)
